@@ -157,9 +157,10 @@ def run(repo: Repo, rep: Report, tier: str) -> None:
         f = ns.methods.get(fname)
         if f is None:
             raise AnalysisError(f"anchor vanished: NameSanitizer.{fname}")
-        it = Interp(f.node, f.params[0])
+        from sa.strshape import interpret as _interpret
+
         try:
-            it.run()
+            it = _interpret(f, f.params[0])
         except Unsupported as e:
             raise AnalysisError(f"R7.7: {fname} uses an operation the string-shape interpreter does not model: {e}")
         chars = set()
